@@ -1,6 +1,6 @@
 """C04 — generated source is a faithful, self-contained compilation of the traced graph.
 
-Proof: Props/C04.lean (compile_correct_wf, compile_correct, emit_closed, visitOrder_nodup, emit_once, emit_order, fuse_sound, value_computed_once obligation).
+Proof: Props/C04.lean (compile_correct_wf, compile_correct_extracted, fuse_produces_safe, compile_correct, emit_closed, visitOrder_nodup, emit_once, emit_order, fuse_sound, value_computed_once obligation).
 Tie (T-src): tools/extract/compile.py reads the switches of `get_usages`, `CodeObject.define` and the `fuse`
 loop from the source; the Lean model is parameterised by them.
 Tie (T-str): the text returned by the real `compile(graph, return_code=True)` equals the text produced by the
@@ -1038,7 +1038,10 @@ def tstr(ctx, graph, text, label, detail=None):
         return r
     ctx.count("tstr:equal")
     ck = r["ok"]["checks"]
-    for k in ("closed_order", "nodup_order", "closed_prog", "fuse_safe", "ref_ok", "same_trace", "same_ret"):
+    # `fuse_safe` (text order per block) and `fuse_safe_prog` (emission order) are the conclusions of the theorems `fuse_text_safe`
+    # and `fuse_produces_safe` (universal for `wf_graph` graphs), `single_def` and `blocks_bound` their emission premises; all are
+    # decided again per graph as a redundant cross-check of model and proof
+    for k in ("closed_order", "nodup_order", "closed_prog", "fuse_safe", "fuse_safe_prog", "single_def", "blocks_bound", "ref_ok", "same_trace", "same_ret"):
         if not ck[k]:
             ctx.count(f"checker:{k}:false")
             ctx.tie_broken(f"checker:{k}", f"{label}: premise/verdict {k} is false for\n{text}")
